@@ -1199,6 +1199,8 @@ class Frame:
             return ListV(out)
         g = n.generators[0]
         it = self.ev(g.iter)
+        if isinstance(it, ZipV) and it.vector:
+            it = Elem(it.generic())
         if isinstance(it, Elem):
             sub = Frame(self.I, self.module, dict(self.env), self.owner, self.self_obj)
             sub.assign(g.target, it.r)
@@ -1363,7 +1365,7 @@ class Frame:
             return _transpose(base)
         if isinstance(base, (str, SegStr)) and n.attr not in dir(str):
             raise _RaisedExc(Raised('AttributeError', n))
-        if isinstance(base, (ListV, Elem, Rat, SumV, DictV, str, SegStr)):
+        if isinstance(base, (ListV, Elem, Rat, SumV, DictV, str, SegStr, TableRef)):
             return BoundNative(base, n.attr)
         if isinstance(base, Module):
             r = I.repo.lookup(base, n.attr)
@@ -1420,6 +1422,12 @@ class Frame:
         if name in PY_BUILTINS:
             return Builtin(name)
         if name in BUILTIN_EXC:
+            return Builtin(name)
+        if name in ALL_PY_BUILTINS:
+            # a builtin the interpreter has no model for must end as "unsupported", never as a NameError the
+            # analysed program would not raise
+            if isinstance(ALL_PY_BUILTINS[name], type) and issubclass(ALL_PY_BUILTINS[name], BaseException):
+                BUILTIN_EXC.add(name)
             return Builtin(name)
         r = I.repo.lookup(self.module, name)
         if r is None:
@@ -1604,6 +1612,19 @@ class TableRef:
         raise Unsupported('symbolic key into table', n, frame.module.relpath)
 
 
+def _table_method(I, fr, tab, name, args, kwargs, n):
+    if name == 'get' and args:
+        try:
+            return tab.lookup(fr, I.plain(args[0]), n)
+        except _RaisedExc as e:
+            if e.raised.exc == 'KeyError':
+                return args[1] if len(args) > 1 else None
+            raise
+    if name == 'keys' and not args:
+        return ListV([k.value for k in tab.node.keys if isinstance(k, ast.Constant)])
+    raise Unsupported('method %s of a module-level table' % name, n)
+
+
 class ZipV:
     def __init__(self, seqs, enumerate_start=None, frame=None):
         self.seqs = seqs
@@ -1663,6 +1684,9 @@ def _load(t):
 _OPS = {ast.Add: '+', ast.Sub: '-', ast.Mult: '*', ast.Div: '/', ast.Pow: '**', ast.Mod: '%', ast.BitOr: '|'}
 _CMP = {ast.Eq: '==', ast.NotEq: '!=', ast.Lt: '<', ast.LtE: '<=', ast.Gt: '>', ast.GtE: '>=',
         ast.Is: 'is', ast.IsNot: 'is not', ast.In: 'in', ast.NotIn: 'not in'}
+
+import builtins as _py_builtins
+ALL_PY_BUILTINS = {k: getattr(_py_builtins, k) for k in dir(_py_builtins) if not k.startswith('_')}
 
 PY_BUILTINS = {'locals', 'iter', 'open', 'round', 'sorted', 'set', 'getattr', 'hasattr', 'float', 'int', 'len', 'min', 'max', 'enumerate', 'zip', 'range', 'type',
                'isinstance', 'all', 'any', 'list', 'tuple', 'abs', 'sum', 'str', 'print',
@@ -1757,6 +1781,19 @@ def builtin_call(I, fr, name, args, kwargs, n):
                     o.ci is not None and I.repo.find_method(o.ci, a, missing_ok=True)):
                 return args[2]
             return fr.obj_attr(o, a, n)
+        if o is None or isinstance(o, (str, SegStr, Rat, ListV, DictV, bool)):
+            pytype = type(None) if o is None else str if isinstance(o, (str, SegStr)) else float if isinstance(o, Rat) \
+                else bool if isinstance(o, bool) else dict if isinstance(o, DictV) else \
+                (list if not getattr(o, 'is_array', False) else None)
+            if pytype is not None and not hasattr(pytype, a):
+                if name == 'hasattr':
+                    return False
+                if len(args) > 2:
+                    return args[2]
+                raise _RaisedExc(Raised('AttributeError', n))
+            if name == 'hasattr' and pytype is not None:
+                return True
+            raise Unsupported('getattr(%s, %r)' % (type(o).__name__, a), n)
         if isinstance(o, Module):
             r_ = I.repo.lookup(o, a)
             if r_ is None:
@@ -1864,6 +1901,22 @@ def builtin_call(I, fr, name, args, kwargs, n):
                 tot = I.binop('+', tot, r_)
             return tot
         return I.np_sum(args[0])
+    if name == 'bool':
+        return I.truth(args[0], n) if args else False
+    if name == 'map' and len(args) == 2:
+        seq = args[1]
+        if isinstance(seq, Elem):
+            return Elem(fr.apply(args[0], [seq.r], {}, n))
+        return ListV([fr.apply(args[0], [x], {}, n) for x in fr.iter_items(seq, n)])
+    if name == 'filter' and len(args) == 2:
+        f_ = args[0]
+        return ListV([x for x in fr.iter_items(args[1], n)
+                      if I.truth(x if f_ is None else fr.apply(f_, [x], {}, n), n)])
+    if name == 'reversed' and len(args) == 1:
+        return ListV(list(reversed(fr.iter_items(args[0], n))))
+    if name == 'callable' and len(args) == 1:
+        return isinstance(args[0], (FuncRef, Builtin, NativeRef, BoundNative, ClassInfo)) or \
+            type(args[0]).__name__ in ('BoundMethod', 'BoundOpaque', 'Lambda')
     if name in ('any', 'all'):
         v = args[0]
         if isinstance(v, ListV):
@@ -1930,6 +1983,11 @@ def builtin_call(I, fr, name, args, kwargs, n):
             if isinstance(a0, DictV):
                 d.d.update(a0.d)
                 d.keyobj.update(a0.keyobj)
+            elif isinstance(a0, ZipV) and not a0.vector:
+                for p_ in a0.items():
+                    if len(p_.items) != 2:
+                        raise _RaisedExc(Raised('ValueError', n))
+                    d.d[d.nkey(p_.items[0])] = p_.items[1]
             elif isinstance(a0, ListV) and all(isinstance(p_, ListV) and len(p_) == 2 for p_ in a0.items):
                 for p_ in a0.items:
                     d.d[d.nkey(p_.items[0])] = p_.items[1]
@@ -1954,6 +2012,8 @@ class TypeOf:
 
 def bound_native(I, fr, bn, args, kwargs, n):
     b, name = bn.base, bn.name
+    if isinstance(b, TableRef):
+        return _table_method(I, fr, b, name, args, kwargs, n)
     if isinstance(b, ListV):
         if name == 'add' and getattr(b, 'is_set', False):
             v = I.plain(args[0])
@@ -2502,6 +2562,24 @@ def _re_generic(kind):
             if a < 0:
                 return None             # group did not participate
             return I.plain(res.spelling.lift(a, b, cuts))
+
+        def make_match(spans):
+            groups = [lift(a, b) for a, b in spans]
+            mo = Obj('match', closed=True)
+
+            def group(I_, o, a, k):
+                if not a:
+                    return groups[0]
+                if len(a) == 1:
+                    return groups[_as_int(a[0], n)]
+                return ListV([groups[_as_int(x, n)] for x in a])
+            mo.opaque_methods['group'] = group
+            mo.opaque_methods['groups'] = lambda I_, o, a, k: ListV(groups[1:])
+            mo.opaque_methods['start'] = lambda I_, o, a, k: C(spans[_as_int(a[0], n) if a else 0][0])
+            mo.opaque_methods['end'] = lambda I_, o, a, k: C(spans[_as_int(a[0], n) if a else 0][1])
+            mo.opaque_methods['span'] = lambda I_, o, a, k: ListV([C(x) for x in
+                                                                   spans[_as_int(a[0], n) if a else 0]])
+            return mo
         try:
             if kind == 'split':
                 return ListV([lift(a, b) for _, a, b in res.spans])
@@ -2522,24 +2600,11 @@ def _re_generic(kind):
                     else:
                         out.append(ListV([lift(a, b) or '' for a, b in it[1:]]))
                 return ListV(out)
+            if kind == 'finditer':
+                return ListV([make_match(sp_) for sp_ in res.spans])
             if res.spans is None:
                 return None
-            groups = [lift(a, b) for a, b in res.spans]
-            mo = Obj('match', closed=True)
-
-            def group(I_, o, a, k):
-                if not a:
-                    return groups[0]
-                if len(a) == 1:
-                    return groups[_as_int(a[0], n)]
-                return ListV([groups[_as_int(x, n)] for x in a])
-            mo.opaque_methods['group'] = group
-            mo.opaque_methods['groups'] = lambda I_, o, a, k: ListV(groups[1:])
-            mo.opaque_methods['start'] = lambda I_, o, a, k: C(res.spans[_as_int(a[0], n) if a else 0][0])
-            mo.opaque_methods['end'] = lambda I_, o, a, k: C(res.spans[_as_int(a[0], n) if a else 0][1])
-            mo.opaque_methods['span'] = lambda I_, o, a, k: ListV([C(x) for x in
-                                                                   res.spans[_as_int(a[0], n) if a else 0]])
-            return mo
+            return make_match(res.spans)
         finally:
             for fld, txt in cuts:
                 I.cuts.append((n, 're.%s(%r) cuts the printed value %r into %r' % (kind, pat, fld, txt)))
@@ -3130,6 +3195,7 @@ NATIVE = {
     're.findall': _re_generic('findall'),
     're.split': _re_generic('split'),
     're.sub': _re_generic('sub'),
+    're.finditer': _re_generic('finditer'),
     'collections.Counter': _counter,
     'numpy.any': _np_anyall('any'),
     'numpy.all': _np_anyall('all'),
